@@ -239,7 +239,7 @@ func pipeRun(args []string) error {
 			defer close(done)
 			if c.Kind == "writer" {
 				sink := &recSink{failAt: c.FailAt, limit: 1 << 28, delay: time.Duration(c.SlowIO) * time.Microsecond}
-				res, _, panicked := runWriter(c.Opts, input, c.Calls, sink, nil, nil)
+				res, segs, panicked := runWriter(c.Opts, input, c.Calls, sink, nil, nil)
 				b := sink.bytes()
 				p := ref.ParseFrame(b, true)
 				errs := []string{}
@@ -252,6 +252,13 @@ func pipeRun(args []string) error {
 				e["nblocks"] = len(p.Blocks)
 				e["sinkSha"] = shaID(b)
 				e["sinkLen"] = len(b)
+				// the frame of the last life of the Writer (bytes written after the last Reset)
+				if len(segs) > 0 && segs[len(segs)-1].SinkStart <= len(b) {
+					last := b[segs[len(segs)-1].SinkStart:]
+					e["lastSegSha"] = shaID(last)
+					lp := ref.ParseFrame(last, true)
+					e["lastSegOK"] = lp.Status == "ok" && bytes.Equal(lp.Content, input[segs[len(segs)-1].InStart:])
+				}
 			} else {
 				// the source frame is written without hooks interfering: sequential Writer
 				currentLog.Store(nil)
